@@ -152,6 +152,7 @@ WITNESSES = ['C09ReceiverNotSync']
 def run(ctx):
     from . import guardvocab
     guardvocab.G0(ctx, effects={'send', 'recv'})
+    guardvocab.G1(ctx, effects={'send', 'recv'})
     g_dpor.V1(ctx, subset=CH)
     g_dpor.V2(ctx, subset=CH)
     g_dpor.T3(ctx, mods=["rt::mpsc"])
